@@ -528,8 +528,9 @@ def _tree_task(task, col):
     cfg, prefix = task
     alphabet = cfg["alphabet"]
     stack = [list(prefix)]
-    budget = cfg.get("max_executions_per_shard", 20000)
+    budget = cfg.get("max_executions_per_shard", SHARD_CAP[0])
     n = 0
+    nviol = 0
     while stack:
         script = stack.pop()
         n += 1
@@ -548,6 +549,12 @@ def _tree_task(task, col):
         col.count("evaluations")
         col.count("states")
         col.max("max_depth", len(script))
+        col.max("max_shard_nodes", n)
+        if probs:
+            nviol += 1
+            if nviol >= 25:
+                col.cap("shard of config %r stopped after 25 violating scripts" % cfg["name"])
+                break
         kind = obs["result"]["kind"] if obs else "?"
         col.outcome("%s:%s" % (cfg["name"].split()[0], kind))
         col.nontrivial((cfg["name"], tuple(script)))
@@ -558,6 +565,8 @@ def _tree_task(task, col):
             col.violation("C16/" + s, "%s (config %s, outcome script %s)" % (w, cfg["name"], script),
                           {"cfg": cfg, "script": script})
 
+
+SHARD_CAP = [12000]
 
 FULL = ["answer", "chain1", "nodata", "nxdomain", "servfail", "refused", "yxdomain", "formerr", "truncated",
         "timeout", "oserror", "eof", "nx-with-answer"]
@@ -618,7 +627,9 @@ def run(ctx):
                 "algorithm and with model-independent invariants; distinct = distinct (config, complete script)")
     ctx.assume("nameservers are scripted dns.nameserver.Nameserver subclasses; dns.resolver.time/dns.asyncresolver.time are a virtual clock; a timeout outcome consumes exactly the offered timeout")
     ctx.assume("rotate off; no TSIG/EDNS variation (they do not influence the loop)")
+    SHARD_CAP[0] = ctx.pick(12000, 120000)
     cfgs = configs(ctx)
+    ctx.extra["shard_node_cap"] = SHARD_CAP[0]
     ctx.extra["configs"] = [{k: v for k, v in c.items()} for c in cfgs]
     tasks = []
     for c in cfgs:
